@@ -89,7 +89,8 @@ def bound_text(tier):
             "after it; 100 also by omission} (3-generator sets: class attr/omission only; assignments other than "
             "{50 class,100 omitted,150 class} with the 16 reload='' rows on plain PC only), all listing permutations, "
             "soft in {'', Cumulus}; every reached "
-            "OldNewResult value x 36 device file maps x entire_reload in {yes,no,force} x acl_safe in {0,1}%s; complete"
+            "OldNewResult value x 36 device file maps x entire_reload in {yes,no,force} x acl_safe in {0,1}%s; every listing "
+            "also through annet.gen._old_new_per_device (pc branch) x acl_safe; complete"
             % (n, len(ROWS), extra))
 
 
